@@ -63,6 +63,26 @@ Theorem C16_late_reply_reported : forall delay evs t id, sorted evs ->
   In id (written (run delay evs)).
 Proof. exact late_reply_reported. Qed.
 
+(* the same counted from the moment the reply is ON THE WIRE: the AF_PACKET ring hands it to the
+   receiver at most [block_timeout_ns] later (the value NewPacketSource passes to afp.NewTPacket, else
+   gopacket's default; Gen/RecvLatency.v).  A reply on the wire at least that long before
+   done + exitDelay is written (fairness assumption as above; decoding/processing is C03/C06) *)
+Theorem C16_late_reply_on_wire_reported : forall delay evs w t id, sorted evs ->
+  In (t, EvResult id) evs -> w <= t <= w + block_timeout_ns ->
+  (forall d, In (d, EvDone) evs -> w + block_timeout_ns < d + delay) ->
+  (forall p, In (p, EvParentCancel) evs -> w + block_timeout_ns < p) ->
+  (forall q, In (q, EvResultsClosed) evs -> w + block_timeout_ns < q) ->
+  In id (written (run delay evs)).
+Proof. intros delay evs w t id. exact (late_reply_on_wire delay evs w block_timeout_ns t id). Qed.
+
+(* obligation on the receive path, over Gen/RecvLatency.v regenerated from pkg/packet/afpacket on
+   every run: the socket is opened once, only with known options, reads time out within 100 ms, and
+   the kernel hand-over latency (block timeout) is below the 100 ms margin that the end-to-end stage
+   of the check tests (replies 110..150 ms before the end of the exit delay must be reported) *)
+Theorem C16_receive_latency_bound :
+  recv_latency_ok = true /\ 0 < block_timeout_ns < recv_latency_bound_ns.
+Proof. split; [vm_compute; reflexivity|split; vm_compute; reflexivity]. Qed.
+
 (* what is written is a subsequence of what the engine delivered: no phantom and no duplicate record *)
 Theorem C16_written_faithful : forall delay evs, subseq (written (run delay evs)) (result_ids evs).
 Proof. exact written_faithful. Qed.
@@ -108,6 +128,8 @@ Print Assumptions C16_ctx_not_before.
 Print Assumptions C16_return_not_before.
 Print Assumptions C16_then_exits.
 Print Assumptions C16_late_reply_reported.
+Print Assumptions C16_late_reply_on_wire_reported.
+Print Assumptions C16_receive_latency_bound.
 Print Assumptions C16_written_faithful.
 Print Assumptions C16_wiring.
 Print Assumptions C16_wiring_forall.
